@@ -373,7 +373,8 @@ def gen_feasible(rng, cls=None):
     prof = profile(kinds=kinds, facilities=False, comps=(rng.random() < 0.5), nested=False,
                    fixed_lists=False, ensure_worker=0.0, max_tasks=7, proj_absence=True,
                    p_res_absence=rng.choice([0.25, 0.7]),
-                   same_name=(0.06 if cls == 1 else 0.0))   # class 2: a worker "skilled for that task only" needs unique names
+                   same_name=(0.06 if cls == 1 else 0.0),   # class 2: a worker "skilled for that task only" needs unique names
+                   large=0.0)    # (feasible runs go to the full sequential bound: a large model with work 1500 / skill 0.01 would run 150000 steps)
     spec = gen_random(rng, prof)
     tasks, teams = spec["tasks"], spec["teams"]
     for t in tasks:
